@@ -180,7 +180,9 @@ Print Assumptions C04_ssa_keeps_input_metas.
    skeletons without metas, see C04_lift_nodes_are_source_nodes; the meta copy
    `Meta::from(&ast::Meta)` of ir.rs is observed on every run by the provenance
    clause of the engine.  Scope: constructors whose nodes are STATEMENTS of the SSA
-   form (hypothesis 6), since the IR mirror has no expression metas. *)
+   form (hypothesis 6; evaluated per label by the engine, see
+   C04_labels_wellformed_through_desugaring_lifting_and_ssa), since the IR mirror has no
+   expression metas. *)
 Theorem C04_labels_wellformed_through_desugaring_and_ssa :
   forall (P : N -> N -> Prop) env lib body body' frontier children c c' ctor ls l,
     Forall (fun m => P (Model.Ast.m_start m) (Model.Ast.m_end m)) (Spec.ExpandSpec.stmt_metas body) ->
@@ -390,7 +392,14 @@ Print Assumptions C04_liftfull_stmt_metas_in_body.
 (* The end-to-end statement with the desugarer's, the lifting's and the SSA
    construction's provenance all proved: the hypothesis about the graph before SSA
    is now only that the lifting mirror produced it.  (Scope as before: constructors
-   whose nodes are STATEMENTS of the SSA form.) *)
+   whose nodes are STATEMENTS of the SSA form -- the hypothesis
+   `nodes_of ctor` subset of `cfg_stmt_metas c'`.  It is EVALUATED by ./check C04 on every
+   label of every in-process report against the statement nodes of the SSA cfgs the real
+   into_cfg + into_ssa build, coverage key `statement_anchor_hypothesis`: it holds for the
+   claimed class -- CS0005, CS0013, CA01, CS0017, CS0006, CS0008 (variable) -- on every
+   explored label, a miss is a violation; the expression-, parameter-list- and
+   definition-anchored constructors, and CS0001 which is built before lifting, are outside
+   the scope of this theorem.) *)
 Theorem C04_labels_wellformed_through_desugaring_lifting_and_ssa :
   forall (P : N -> N -> Prop) env lib body body' kind params pfile ploc frontier children c c' ctor ls l,
     Forall (fun m => P (Model.Ast.m_start m) (Model.Ast.m_end m)) (Spec.ExpandSpec.stmt_metas body) ->
@@ -405,8 +414,9 @@ Proof. exact Proofs.LiftFullC04.labels_wellformed_through_desugaring_lifting_and
 Print Assumptions C04_labels_wellformed_through_desugaring_lifting_and_ssa.
 
 (* `template T() { signal input a; signal output b; if (a) { b <-- a; } }` (the
-   declarations inside initialization blocks, as the parser builds them): five IR
-   statements, whose metas are those of the five source statements *)
+   declarations inside initialization blocks, as the parser builds them): four IR
+   statements (two declarations, the IfThenElse of the `if`, the substitution), whose metas
+   are those of the four source statements that are not blocks / initialization blocks *)
 Example C04_example_liftfull_metas :
   let m a b := Model.Ast.Meta a b (Some 0%N) in
   let va := Model.Ast.Variable_ (m 40 41)%N "a" [] in
